@@ -70,7 +70,9 @@ def monStep (cfg : Config) (m : Mon) (op : Op) (o : IObs) : Mon × Option String
   -- C02: a connection that answered its readiness poll with an error never reported ready: it may not be back in the pool
   let v15 : Option String := if idleConns.any m.failed.contains then some "C02/failed-connection-returned-to-pool" else v15
   match op with
-  | .issue r k _ => ({ m1 with keyOf := (r, k) :: m.keyOf, issuedAt := (r, m.idx) :: m.issuedAt }, v15)
+  | .issue r k _ =>
+    ({ m1 with keyOf := (r, k) :: m.keyOf, issuedAt := (r, m.idx) :: m.issuedAt },
+     if o.res == .panic then some "C17/pool-panic" else v15)
   | .poll r =>
     let lost : Option String :=
       if m.pend.contains r && !o.woke && o.res != .pending && o.res != .noop then some "C03/lost-wakeup" else none
@@ -123,6 +125,9 @@ def strandedAt (s : State) (r : ReqId) (res : Obs) : Bool :=
     `drain` = we are in the drain/probe phase, where every attempt has been resolved. -/
 def classify (s : State) (drain : Bool) (op : Op) (mo : IObs) (io : IObs) : Option String :=
   if io.dials > mo.dials then some "C04/extra-dial"
+  -- only a background task dials while tasks run: the attempt of a request that was abandoned (pre-empted or cancelled) before
+  -- it got under way, carried on because `continue_after_preemption` is set - the implementation let it drop
+  else if io.dials < mo.dials && op == .run && s.cfg.cap then some "C14/abandoned-attempt-not-continued"
   else if io.drops > mo.drops then
     -- the model passes the connection on (to a waiting request, or to the idle list after clearing the queue); the implementation destroys
     -- it and leaves the queue as it was
